@@ -549,7 +549,65 @@ func runC04(c *Case) {
 			switch x := r.IntN(100); {
 			case x < 22: // multi-step recipes of contradictory / correlated requests
 				at := attached()
-				switch rec := r.IntN(10); {
+				switch rec := r.IntN(13); {
+				case rec == 12: // a testament whose publish options ask for payload passthru, then its owner leaves
+					if len(at) == 0 {
+						continue
+					}
+					a := pick(r, at)
+					po := wamp.Dict{"ppt_scheme": pick(r, []string{"x_custom", "mqtt", "wamp"}), "ppt_serializer": pick(r, []any{"native", "cbor", 5})}
+					if chance(r, 30) {
+						po["disclose_me"] = true
+					}
+					a.p.Send(&wamp.Call{Request: a.nextReq(), Options: wamp.Dict{}, Procedure: "wamp.session.add_testament",
+						Arguments: wamp.List{"probe.topic", wamp.List{"testament"}, wamp.Dict{}}, ArgumentsKw: wamp.Dict{"publish_options": po, "scope": pick(r, []string{"destroyed", "detached"})}})
+					w.Wait()
+					a.p.Drop()
+					a.state = "gone"
+					desc = "recipe[attached] testament with payload passthru publish options, owner drops"
+				case rec == 10 && len(at) >= 2: // a registration with an unknown match policy is emptied and registered again, then its holder leaves
+					a, b := at[0], at[1]
+					proc := wamp.URI(pick(r, []string{"r.match", "a.b", "r.two"}))
+					opts := func() wamp.Dict {
+						return wamp.Dict{"match": pick(r, []string{"regex", "glob", "EXACT", "Prefix", "wild"}), "invoke": pick(r, []string{"roundrobin", "first", "last", "random"})}
+					}
+					o := opts()
+					a.p.Send(&wamp.Register{Request: a.nextReq(), Options: o, Procedure: proc})
+					w.Wait()
+					a.absorb()
+					if chance(r, 50) {
+						a.p.Send(&wamp.Unregister{Request: a.nextReq(), Registration: pickID(r, a.regs[max(0, len(a.regs)-1):])})
+					} else {
+						a.p.Drop()
+						a.state = "gone"
+					}
+					w.Wait()
+					b.p.Send(&wamp.Register{Request: b.nextReq(), Options: o, Procedure: proc})
+					w.Wait()
+					b.p.Send(&wamp.Call{Request: b.nextReq(), Options: wamp.Dict{}, Procedure: proc})
+					w.Wait()
+					b.p.Drop()
+					b.state = "gone"
+					desc = fmt.Sprintf("recipe[attached] REGISTER match=%v invoke=%v, emptied, registered again, holder drops", o["match"], o["invoke"])
+				case rec == 11: // event history queried with hostile filters
+					if len(at) == 0 {
+						continue
+					}
+					a := pick(r, at)
+					a.p.Send(&wamp.Subscribe{Request: a.nextReq(), Options: wamp.Dict{"match": "prefix"}, Topic: "a.b"})
+					w.Wait()
+					a.absorb()
+					for k := 0; k < 3; k++ {
+						kw := wamp.Dict{}
+						for n := 1 + r.IntN(3); n > 0; n-- {
+							kw[pick(r, metaKwKeys)] = hostileValue(r, 0)
+						}
+						if chance(r, 60) {
+							kw["limit"] = pick(r, []any{1 << 53, 1<<53 + 1, int64(math.MaxInt64), uint64(1) << 63, uint64(math.MaxUint64), 1 << 40, -1, 0, 1e300, "10"})
+						}
+						a.p.Send(&wamp.Call{Request: a.nextReq(), Options: wamp.Dict{}, Procedure: "wamp.subscription.get_events", Arguments: wamp.List{pickID(r, a.subs)}, ArgumentsKw: kw})
+					}
+					desc = "recipe[attached] get_events on a history subscription with hostile filters"
 				case rec == 9 && len(at) >= 2: // a caller vanishes while its call is pending, then the callee answers
 					a, b := at[0], at[1]
 					if chance(r, 50) {
